@@ -162,7 +162,7 @@ def r2(ctx):
     ctx.ob("control:direct-callback-pattern-matches", len(hit) == 1, "embedded violating snippet is recognised", "")
 
 
-def setsock_paths(ctx, reconnecting: bool, on_reconnect: bool, ping_interval=0, may_raise=None, sock_set=False, app_fields=None):
+def setsock_paths(ctx, reconnecting: bool, on_reconnect: bool, ping_interval=0, may_raise=None, sock_set=False, app_fields=None, callbacks=None):
     idx = ctx.index
 
     def ws_ctor(I, run, args, kwargs, node):
@@ -189,10 +189,12 @@ def setsock_paths(ctx, reconnecting: bool, on_reconnect: bool, ping_interval=0, 
     I = Interp(idx, Config(stubs=st, may_raise=may_raise))
 
     def closure(run):
-        app = mk_app(I, run, {"on_reconnect": on_reconnect}, keep_running=TRUE, ping_interval=C(ping_interval), **(app_fields(run) if app_fields else {}))
+        cbs = dict(callbacks) if callbacks else {}
+        cbs.setdefault("on_reconnect", on_reconnect)
+        app = mk_app(I, run, cbs, keep_running=TRUE, ping_interval=C(ping_interval), **(app_fields(run) if app_fields else {}))
         if sock_set:
             run.cell(app).fields["sock"] = new_obj(run, None, "oldsock")
-        return closure_env(run, app, ping_interval=C(ping_interval))
+        return closure_env(run, app, ping_interval=C(ping_interval), skip_utf8_validation=Sym("skip_utf8_validation", "bool"))
 
     outs = ctx.count_paths(I.explore_call(f"{RF}.setSock", lambda run: ([C(reconnecting)], {}), closure))
     return I, outs
@@ -345,3 +347,15 @@ def r4(ctx):
 def r5(ctx):
     from .c02 import r5 as exact_consumption
     exact_consumption(ctx)
+
+
+@rule("R-C13-7", min_instances=4, title="WebSocketApp builds its WebSocket with per-fragment delivery exactly when on_cont_message is set, and with the caller's skip_utf8_validation")
+def r_options(ctx):
+    from .options import app_plumbing
+    app_plumbing(ctx)
+
+
+@rule("R-C13-8", min_instances=3, title="what the callbacks receive is the frame's payload as read from the transport (bytes, also when empty): the frame object's data is the last read of the frame")
+def r8(ctx):
+    from .c02 import r2 as payload_is_last_read
+    payload_is_last_read(ctx)
